@@ -100,6 +100,8 @@ class Connection(ABC, TaskManager):
         """Close the connection."""
         self.cancel_tasks()
         await self.protocol.shutdown()
+        self.cancel_tasks()
+        await self.wait_until_done()
 
     @property
     def protocol(self) -> Protocol:
